@@ -1,5 +1,6 @@
 import M3d.Basic
 import M3d.Model.Conc
+import M3d.Model.ConcQuery
 /-! Line-protocol handler for C13.  Core-only.
 
 * `c13 <scenario> … seq=<answer>` — the property requires the concurrent answer to equal the
@@ -10,6 +11,12 @@ import M3d.Model.Conc
 * `c13 dclsearch <n> <tok>…` — search all complete schedules of `n` threads of the program
   denoted by a `getVertexToFace` shape for a data race, a second build, differing return
   values or a read of an unbuilt index; prints `ok schedules=<k>` or a witness schedule.
+* `c13 qsearch field|local` — all complete schedules of two staged queries (inputs 10 and 20 on a
+  structure with data 5) staging in a field of the structure / in call-local state: a witness
+  (data race or an answer different from sequential use) or `ok schedules=<k>`
+  (`query_field_scratch_racy`, `query_local_scratch_eq_sequential`).
+* `c13 cachesearch claim|memo` — the same for two callers of the cached function
+  (`cache_claim_first_racy`, `cache_memo_returns_fx`).
 * `c13 updsearch` / `c13 redsearch` — the two-thread witnesses for the unsynchronised
   `updateAt` and the reduction without lock.
 -/
@@ -62,6 +69,35 @@ def handleAll (ws : List String) : Option String :=
       match findSchedule p n (dclBad p n) fuel Config.init with
       | some s => some ("witness threads=" ++ toString n ++ " " ++ describe p n s)
       | none => some s!"ok schedules={countSchedules p n fuel Config.init}"
+  | ["qsearch", kind] =>
+      let f : Val → Val → Val := fun s x => s + x
+      let xs : Tid → Val := fun t => 10 * (t + 1)
+      let q : Program := if kind == "field" then queryFieldProg f xs else queryLocalProg f xs
+      let p : Program := fun t => if t < 2 then q t else []
+      let wrong : Config → Bool := fun c =>
+        (List.range 2).any fun t => done p c t && (c.thr t).out != f 5 (xs t)
+      let bad : Config → Bool := fun c => !c.races.isEmpty || wrong c
+      -- prefer a schedule with a wrong answer over one that only races
+      match (findSchedule p 2 wrong 8 (structInit 5)).orElse fun _ => findSchedule p 2 bad 8 (structInit 5) with
+      | some s =>
+          let c := run p (structInit 5) s
+          some (s!"witness schedule={showSched s} races={c.races.length} answers=" ++
+            ",".intercalate ((List.range 2).map fun t => toString (c.thr t).out) ++ " sequential=15,25" ++
+            s!" ownership={progRO queryOwn queryShared p 2}")
+      | none => some s!"ok schedules={countSchedules p 2 8 (structInit 5)} ownership={progRO queryOwn queryShared p 2}"
+  | ["cachesearch", kind] =>
+      let v : Val := 8
+      let q : Program := if kind == "claim" then cacheClaimProg v else cacheProg v
+      let p : Program := fun t => if t < 2 then q t else []
+      let ans : Config → Tid → Val := fun c t => if kind == "claim" then (c.thr t).out else (c.thr t).reg
+      let wrong : Config → Bool := fun c => (List.range 2).any fun t => done p c t && ans c t != v
+      let bad : Config → Bool := fun c => !c.races.isEmpty || wrong c
+      match (findSchedule p 2 wrong 12 Config.init).orElse fun _ => findSchedule p 2 bad 12 Config.init with
+      | some s =>
+          let c := run p Config.init s
+          some (s!"witness schedule={showSched s} races={c.races.length} answers=" ++
+            ",".intercalate ((List.range 2).map fun t => toString (ans c t)) ++ s!" f(x)+1={v}")
+      | none => some s!"ok schedules={countSchedules p 2 12 Config.init}"
   | ["updsearch"] =>
       let p : Program := fun t => if t < 2 then updateAtRacy ([5, 3].getD t 0) else []
       match findSchedule p 2 (fun c => !c.races.isEmpty && c.mem CELL != 5) 10 Config.init with
